@@ -90,6 +90,8 @@ func c01R5(c *Ctx) {
 	honest := func(k Cond) bool {
 		a := k.Atom
 		switch {
+		case k.Expanded:
+			return true // a helper whose own conditions are part of this set
 		case a.Op == "EQ" && !k.Pol && (a.Args[0].Op == "const" && a.Args[0].Name == "nil" || a.Args[1].Op == "const" && a.Args[1].Name == "nil"):
 			return true // part / snapshot is not nil
 		case k.Pol && isRecvField(dv, "Exists")(a):
